@@ -1295,6 +1295,8 @@ SPECIALS = ([{"family": "online", "node": nd, "trained": tr, "how": how} for nd 
             + [{"family": "namedesn", "how": how} for how in ("deepcopy", "pickle")]
             + [{"family": "fbclamp", "forced_on": w} for w in ("copy", "original")]
             + [{"family": "legacyact"}]
+            + [{"family": "interleaved", "how": hw, "fitted_before": fb} for hw, fb in ((("deepcopy", "pickle"), True), (("deepcopy", "deepcopy"), True),
+                                                                                      (("pickle", "pickle"), False))]
             + [{"family": "concatrefit", "how": how, "names": nm, "widths": w, "fit_before": fbf}
                for how, nm, w, fbf in (("deepcopy", ["in", "in2"], [2, 3], False), ("pickle", ["in", "in2"], [2, 2], True),
                                        ("deepcopy", ["R-1", "R-10"], [2, 2], False), ("deepcopy", ["a", "b"], [2, 3], True),
@@ -1434,11 +1436,55 @@ def act_hardtanh_scaled(x):
     return np.clip(2.0 * x, -1.0, 1.0)
 
 
+def _judge_interleaved(sc):
+    """two copies (deep copy / pickle round-trip) of ONE fitted Ridge and the original, trained further with INTERLEAVED partial fits: every side ends
+    with exactly what a fresh node fitted on that side's own data gets (the copies share no buffer, file or name-keyed resource)"""
+    import copy as _copy
+    import pickle
+    import reservoirpy as rpy
+    rpy.verbosity(0)
+    from reservoirpy.nodes import Ridge
+    rs = np.random.RandomState(sc["seed"] % (2 ** 31))
+    T = 8
+
+    def data():
+        return rs.randint(-8, 9, (T, 3)) / 4.0, rs.randint(-8, 9, (T, 2)) / 4.0
+    D = [data() for _ in range(7)]
+    tag = sc["tag"]
+    try:
+        orig = Ridge(ridge=0.125, name="il%s_o" % tag)
+        if sc["fitted_before"]:
+            orig.fit(*D[0])
+        a = _copy.deepcopy(orig) if sc["how"][0] == "deepcopy" else pickle.loads(pickle.dumps(orig))
+        b = _copy.deepcopy(orig) if sc["how"][1] == "deepcopy" else pickle.loads(pickle.dumps(orig))
+        sides = {"original": (orig, [1, 2]), "copy A": (a, [3, 4]), "copy B": (b, [5, 6])}
+        for rnd in range(2):
+            for lab, (node, idx) in sides.items():
+                node.partial_fit(*D[idx[rnd]])
+        for lab, (node, idx) in sides.items():
+            node.fit()
+        for lab, (node, idx) in sides.items():
+            ref = Ridge(ridge=0.125, name="il%s_r%s" % (tag, lab[-1]))
+            for i in idx:
+                ref.partial_fit(*D[i])
+            ref.fit()
+            if not (np.allclose(node.Wout, ref.Wout, rtol=1e-9, atol=1e-9) and np.allclose(node.bias, ref.bias, rtol=1e-9, atol=1e-9)):
+                return _viol("copy:interleaved-training-leaks", "a %s Ridge, %s and %s, each given two partial fits of its own data in alternation and then fit(): "
+                             "the %s does not end with the solution of a fresh node fitted on its own data (max |dWout| = %.3g): training one side leaked "
+                             "into another" % ("fitted" if sc["fitted_before"] else "fresh", sc["how"][0], sc["how"][1], lab,
+                                               float(np.max(np.abs(node.Wout - ref.Wout)))), sc)
+    except Exception as e:  # noqa: BLE001
+        return _viol("copy:interleaved-training:exception", "interleaved training of copies raises %r" % (e,), sc)
+    return None
+
+
 def _judge(sc):
     if sc["family"] == "fbclamp":
         return _judge_fbclamp(sc)
     if sc["family"] == "legacyact":
         return _judge_legacy_activation(sc)
+    if sc["family"] == "interleaved":
+        return _judge_interleaved(sc)
     if sc["family"] == "legacy_noise":
         return _judge_legacy_noise(sc)
     if sc["family"] == "collision":
